@@ -1,36 +1,11 @@
 import SynapModel.Proto
 import SynapModel.Drv.Tensor
 import SynapModel.Generated.KernelFormulas
-import SynapModel.Generated.OptimSteps
-import SynapModel.Generated.EngineLogic
-import SynapModel.Drv.Optim
 /-! driver commands for the generated formulas (`gf <kernel> <floats>`): the definitions `harness/formulas.py` wrote from
     `cpu_ops.py` on this run, executed at `Float`, so that the TRANSLATION is validated against the real kernels on every run;
     `gf names` lists what was translated -/
 namespace Synap.Drv.Formulas
 open Synap Synap.Proto
-
-/-- `gs <Class> <scalars> <flags 0/1> <optional slots: - or bits> <counters>` -> `<scalars>|<optional slots>|<counters>` -/
-def runStep : List String → String
-  | [name, xs, fs, os, ns] =>
-    match parseFloatList? xs, parseList? parseBool? fs, parseList? (parseOpt? parseFloat?) os, parseNatList? ns with
-    | some x, some f, some o, some n =>
-      match Gen.runStepFloat name x f o n with
-      | none => "bad-op"
-      | some (rx, ro, rn) => showFloatList rx ++ "|" ++ showList (showOpt showFloat) ro ++ "|" ++ showNatList rn
-    | _, _, _, _ => "bad-op"
-  | _ => "bad-op"
-
-/-- `ge <condition> <atoms 0/1 in signature order>` -> 0/1 : a generated condition of `Generated/EngineLogic.lean` on one row of its truth table;
-    `ge skeleton traversal|sweep` -> the statement skeleton -/
-def runCond : List String → String
-  | ["skeleton", "traversal"] => " ; ".intercalate Gen.Engine.traversalSkeleton
-  | ["skeleton", "sweep"] => " ; ".intercalate Gen.Engine.sweepSkeleton
-  | [name, xs] =>
-    match parseList? parseBool? xs with
-    | none => "bad-op"
-    | some v => match Gen.Engine.evalCond name v with | none => "bad-op" | some b => showBool b
-  | _ => "bad-op"
 
 def run : List String → String
   | ["names"] => showList id Gen.names
@@ -42,5 +17,6 @@ def run : List String → String
       | none => "bad-op"
       | some r => showNatList [r.length] ++ "|" ++ showFloatList r
   | _ => "bad-op"
+
 
 end Synap.Drv.Formulas
